@@ -680,7 +680,8 @@ exec_c20p(const vcase *vc)
 			if (s < 0 || s > 3 || k < 0 || W.ep[s].live)
 				continue;
 			bool        dl   = n == "dcreate";
-			std::string addr = addr_for(W, (int) a2, s + 10 * (int) vop_arg(o, 3, 0));
+			// (variant 2: every endpoint created with it shares one address - a second listener there fails to start with NNG_EADDRINUSE and may be started again)
+			std::string addr = addr_for(W, (int) a2, vop_arg(o, 3, 0) == 2 ? 99 : s + 10 * (int) vop_arg(o, 3, 0));
 			nng_dialer   d = NNG_DIALER_INITIALIZER;
 			nng_listener l = NNG_LISTENER_INITIALIZER;
 			int rv = enumerate(W, dl ? "nng_dialer_create" : "nng_listener_create", -1,
